@@ -63,6 +63,99 @@ static int run_line(hctx* h, const h_line* l) {
     return 1;
 }
 
+/* ---- stage 2: functions with array arguments / out-results
+ *   cfun2 f=<name> a0=<v> a1=<v> ... d=<0|1>     <v> = decimal | x<hex> (byte array) | <n>,<n>,.. or - (wider elements)
+ * Every array is copied into a heap buffer of EXACTLY its size (malloc under ASan: a read or write one element outside
+ * [0, length) aborts, and the unfinished line names the input).  The real function is called only for d=1 (the
+ * generated `_defined` predicate, which includes "every access is inside its array"). */
+static const cfun2_entry* find_entry2(const char* name) {
+    for (int i = 0; i < CFUN2_TABLE_N; i++)
+        if (!strcmp(cfun2_table[i].name, name)) return &cfun2_table[i];
+    return NULL;
+}
+
+static int parse_array(const char* v, int esize, void** out, size_t* len) {
+    size_t n = 0;
+    if (esize == 1) {
+        if (v[0] != 'x') return -1;
+        size_t hl = strlen(v + 1);
+        if (hl % 2) return -1;
+        n = hl / 2;
+        uint8_t* p = (uint8_t*)malloc(n);           /* exact size, also for n = 0 */
+        if (!p && n) return -1;
+        for (size_t i = 0; i < n; i++) {
+            unsigned b; if (sscanf(v + 1 + 2 * i, "%2x", &b) != 1) return -1;
+            p[i] = (uint8_t)b;
+        }
+        *out = p; *len = n; return 0;
+    }
+    if (strcmp(v, "-") != 0) { n = 1; for (const char* c = v; *c; c++) if (*c == ',') n++; }
+    uint8_t* p = (uint8_t*)malloc(n * (size_t)esize);
+    if (!p && n) return -1;
+    const char* c = v;
+    for (size_t i = 0; i < n; i++) {
+        char* end; uint64_t x = strtoull(c, &end, 10);
+        if (end == c) return -1;
+        if (esize == 2) ((uint16_t*)p)[i] = (uint16_t)x; else if (esize == 4) ((uint32_t*)p)[i] = (uint32_t)x; else ((uint64_t*)p)[i] = x;
+        c = (*end == ',') ? end + 1 : end;
+    }
+    *out = p; *len = n; return 0;
+}
+
+static void print_array(FILE* f, const void* p, size_t n, int esize) {
+    if (esize == 1) { h_hex(f, (const uint8_t*)p, n); return; }
+    if (n == 0) { fputc('-', f); return; }
+    for (size_t i = 0; i < n; i++) {
+        uint64_t x = esize == 2 ? ((const uint16_t*)p)[i] : esize == 4 ? ((const uint32_t*)p)[i] : ((const uint64_t*)p)[i];
+        fprintf(f, i ? ",%llu" : "%llu", (unsigned long long)x);
+    }
+}
+
+static int run_line2(hctx* h, const h_line* l) {
+    const char* f = h_in(l, "f");
+    const char* dv = h_in(l, "d");
+    if (!f || !dv) return 0;
+    const cfun2_entry* e = find_entry2(f);
+    fprintf(h->out, "cfun2 f=%s", f);
+    for (int i = 0; i < l->n_in; i++)
+        if (l->in[i].key[0] == 'a' && l->in[i].key[1] >= '0' && l->in[i].key[1] <= '9')
+            fprintf(h->out, " %s=%s", l->in[i].key, l->in[i].val);
+    fprintf(h->out, " d=%s", dv);
+    h_call(h);
+    h->n_lines++;
+    if (!e) { fprintf(h->out, " | missing=1\n"); return 1; }
+    if (strcmp(dv, "1") != 0) { n_skipped++; fprintf(h->out, " | triv=1\n"); return 1; }
+    cfun_val a[24], o[24];
+    memset(a, 0, sizeof a); memset(o, 0, sizeof o);
+    int bad = 0;
+    for (int i = 0; i < e->nargs; i++) {
+        char key[8]; snprintf(key, sizeof key, "a%d", i);
+        const char* v = h_in(l, key);
+        if (!v) { bad = 1; break; }
+        if (e->akind[i] == 0) a[i].n = strtoull(v, NULL, 10);
+        else if (parse_array(v, e->akind[i], &a[i].p, &a[i].len)) { bad = 1; break; }
+        else if (e->fixed[i] && a[i].len != e->fixed[i]) { bad = 1; break; }
+    }
+    if (bad) {
+        /* arity / kind / fixed length differs from what the Lean table says: broken translator output */
+        fprintf(h->out, " | missing=1\n");
+        for (int i = 0; i < e->nargs; i++) free(a[i].p);
+        return 1;
+    }
+    long ub0 = n_ub_reports;
+    e->call(a, o);
+    n_called++;
+    fprintf(h->out, " |");
+    for (int k = 0; k < e->nouts; k++) {
+        fprintf(h->out, " r%d=", k);
+        if (e->okind[k] == 0) fprintf(h->out, "%llu", (unsigned long long)o[k].n);
+        else print_array(h->out, o[k].p, o[k].len, e->okind[k]);
+    }
+    fprintf(h->out, " ub=%ld\n", n_ub_reports - ub0);
+    for (int i = 0; i < e->nargs; i++) free(a[i].p);
+    return 1;
+}
+
 static void gen_cfun(hctx* h) {
     if (!h->in_path) {
         /* only the Lean side knows which argument tuples are free of undefined behaviour; without its input lines
@@ -78,13 +171,15 @@ static void gen_cfun(hctx* h) {
         h_line l;
         if (h_parse_line(line, &l)) { fprintf(stderr, "cfun: bad input line\n"); exit(2); }
         if (!strcmp(l.op, "cfun")) run_line(h, &l);
+        else if (!strcmp(l.op, "cfun2")) run_line2(h, &l);
         h_free_line(&l);
     }
     free(line); fclose(in);
-    fprintf(h->out, "#stat functions %d\n#stat called %ld\n#stat skipped_undefined %ld\n", CFUN_TABLE_N, n_called, n_skipped);
+    fprintf(h->out, "#stat functions %d\n#stat called %ld\n#stat skipped_undefined %ld\n", CFUN_TABLE_N + CFUN2_TABLE_N, n_called, n_skipped);
 }
 
 static int replay_cfun(hctx* h, const h_line* l) {
+    if (!strcmp(l->op, "cfun2")) return run_line2(h, l);
     if (strcmp(l->op, "cfun") != 0) return 0;
     return run_line(h, l);
 }
